@@ -186,8 +186,10 @@ def walk_local(node, include_self=False):
 
 
 class Project(object):
-    def __init__(self, root=None, package='circus', canonical=True):
+    def __init__(self, root=None, package='circus', canonical=True, normalise=None):
         self.canonical = canonical
+        self.normalise = canonical if normalise is None else normalise
+        self.normal_form = {}
         self.local_renames = []
         self.root = os.path.abspath(root or os.environ.get('VERIF_REPO', '/repo'))
         self.package = package
@@ -200,6 +202,8 @@ class Project(object):
         if canonical:
             from .localnames import canonicalise
             self.local_renames = canonicalise(self)
+            if any('(def)' in r for r in self.local_renames):
+                self._reindex()
 
     # -- loading ---------------------------------------------------------
     def _load(self):
@@ -221,7 +225,21 @@ class Project(object):
                     src = f.read()
                 m = ModuleInfo(mod, path, rel, src)
                 self.modules[mod] = m
-                self._index_module(m)
+        if self.normalise:
+            from .normalize import normalise_trees
+            try:
+                self.normal_form = normalise_trees({n: m.tree for n, m in self.modules.items()})
+            except RecursionError as e:
+                raise AnalysisError('normalisation failed: %s' % e)
+        for m in self.modules.values():
+            self._index_module(m)
+
+    def _reindex(self):
+        self.classes, self.functions = {}, {}
+        for m in self.modules.values():
+            m.functions, m.classes, m.imports, m.assigns = {}, {}, {}, {}
+            self._index_module(m)
+        self._link()
 
     def _index_module(self, m):
         for node in m.tree.body:
@@ -278,6 +296,18 @@ class Project(object):
                 for t in b.targets:
                     if isinstance(t, ast.Name):
                         ci.class_attrs[t.id] = b.value
+            elif isinstance(b, ast.If):
+                # class-level platform switch: take the POSIX branch when the
+                # test is one of the platform constants, else the last binding
+                from .cfg import static_truth, POSIX_CONSTS
+                v = static_truth(b.test, POSIX_CONSTS)
+                parts = [b.body] if v is True else [b.orelse] if v is False else [b.body, b.orelse]
+                for part in parts:
+                    for x in part:
+                        if isinstance(x, ast.Assign):
+                            for t in x.targets:
+                                if isinstance(t, ast.Name):
+                                    ci.class_attrs[t.id] = x.value
         return ci
 
     def _index_nested(self, fi):
